@@ -51,7 +51,15 @@ extern "C" int sim_main(int argc, char** argv) {
     for (long k = 0; k < nkeys; ++k) {
       int64_t key = (int64_t)g.below(4 * nkeys + 1);
       if ((k + world.rank()) % 2 == 0) { mi.async_insert(key, (int)k); ss.async_insert("s" + std::to_string(key)); }
-      ds.async_union(key, (int64_t)g.below(4 * nkeys + 1));
+      if (k % 2 == 0) ds.async_union(key, (int64_t)g.below(4 * nkeys + 1));
+      else ds.async_union_and_execute(key, (int64_t)g.below(4 * nkeys + 1), [](const int64_t& a, const int64_t& b) {});
+    }
+    world.barrier();
+    // a second round of unions over existing trees, so that walks climb through parents on other ranks (path splitting)
+    for (long k = 0; k < nkeys; ++k) {
+      int64_t a = (int64_t)g.below(4 * nkeys + 1), b = (int64_t)g.below(4 * nkeys + 1);
+      if (k % 3 == 0) ds.async_union(a, b);
+      else ds.async_union_and_execute(a, b, [](const int64_t& x, const int64_t& y) {});
     }
     world.barrier();
     std::vector<int64_t> probe; for (long k = 0; k < 40; ++k) probe.push_back((int64_t)g.below(4 * nkeys + 1));
@@ -63,6 +71,32 @@ extern "C" int sim_main(int argc, char** argv) {
     c << "dset"; ds.for_all([&](const int64_t& k, const int64_t& rep) { c << " " << k << ":" << std::hash<int64_t>{}(k) % (size_t)world.size(); });
     hc::out(a.str()); hc::out(b.str()); hc::out(c.str());
     hc::out("sizes " + std::to_string(mi.size()) + " " + std::to_string(ss.size()) + " " + std::to_string(ds.size()));
+  } else if (mode == "twocomm") {
+    // two communicators of DIFFERENT size in one process, containers of the same type on both, the same keys used on
+    // one and then the other: owners must be computed per communicator (hash % that communicator's size)
+    long nkeys = atol(argv[2]); hc::rng g(atol(argv[3]));
+    int wr = world.rank(), ws = world.size();
+    MPI_Comm subc; MPI_Comm_split(MPI_COMM_WORLD, wr < ws - 1 ? 0 : 1, wr, &subc);
+    {
+      ygm::comm sub(subc);
+      ygm::container::map<int64_t, int> mw(world); ygm::container::map<int64_t, int> msub(sub);
+      std::ostringstream o; o << "owners";
+      for (long k = 0; k < nkeys; ++k) {
+        int64_t key = (int64_t)g.below(1000);
+        int ow = mw.owner(key); int os = msub.owner(key); int ow2 = mw.owner(key);
+        o << " " << std::hash<int64_t>{}(key) << ":" << ow << ":" << os << ":" << ow2 << ":" << sub.size();
+        if (wr == 0) { mw.async_insert(key, 1); }
+        if (sub.rank() == 0 && wr < ws - 1) { msub.async_insert(key, 2); }
+      }
+      world.barrier(); sub.barrier();
+      hc::out(o.str());
+      std::ostringstream a, b;
+      a << "mapw"; mw.for_all([&](const int64_t& k, int& v) { a << " " << k << ":" << std::hash<int64_t>{}(k) % (size_t)ws; });
+      b << "maps"; msub.for_all([&](const int64_t& k, int& v) { b << " " << k << ":" << std::hash<int64_t>{}(k) % (size_t)sub.size(); });
+      hc::out(a.str()); hc::out(b.str() + " | " + std::to_string(sub.rank()) + " " + std::to_string(sub.size()));
+      world.barrier();
+    }
+    MPI_Comm_free(&subc);
   } else {  // hash owners of generated keys, through every hash-partitioned container
     long nkeys = atol(argv[2]); hc::rng g(atol(argv[3]));
     ygm::container::map<int64_t, int> mi(world); ygm::container::map<std::string, int> ms(world);
